@@ -66,6 +66,14 @@ Definition py_index {A} (l : list A) (z : Z) : result A :=
   if Z.ltb k 0 then Raise IndexError
   else match nth_error l (Z.to_nat k) with Some a => Ok a | None => Raise IndexError end.
 
+(* xs.append(v) for a list local xs that is not shared (the translator rejects copies of list locals) *)
+Definition py_append {A} (l : list A) (v : A) : list A := l ++ [v].
+(* zip(a, b): pairs up to the shorter length *)
+Definition py_zip {A B} (a : list A) (b : list B) : list (A * B) := List.combine a b.
+(* chain.from_iterable(ls), list(it) *)
+Definition py_chain {A} (ls : list (list A)) : list A := List.concat ls.
+Definition py_list {A} (l : list A) : list A := l.
+
 (* sorted(s) for a collection of qubit indices: ascending (insertion sort; the result of sorted() is determined
    by the multiset of elements, so the algorithm does not matter) *)
 Fixpoint py_insert (x : nat) (l : list nat) : list nat :=
@@ -80,11 +88,19 @@ Record pynum : Type := mk_pynum {
   num : Type;
   n_int : Z -> num;                  (* an int used where a number is expected *)
   n_lit : Q -> num;                  (* a float literal, read as its decimal value *)
+  n_add : num -> num -> num;         (* a + b *)
   n_mul : num -> num -> num;         (* a * b *)
   n_div : num -> num -> num;         (* a / b for b != 0 *)
   n_abs : num -> num;                (* abs(a) *)
   n_gtb : num -> num -> bool;        (* a > b *)
-  n_is_zero : num -> bool            (* a == 0 *)
+  n_is_zero : num -> bool;           (* a == 0 *)
+  n_eqb : num -> num -> bool         (* a == b *)
+}.
+
+(* a number structure in which np.pi is a number (time_evolution_derivatives shifts the time by pi / (4 r)) *)
+Record pynum_pi : Type := mk_pynum_pi {
+  pn_base :> pynum;
+  n_pi : num pn_base                 (* np.pi *)
 }.
 
 (* a / b *)
@@ -93,9 +109,9 @@ Definition py_truediv (N : pynum) (a b : num N) : result (num N) :=
 
 (* exact rationals: how the correspondence cases and Pauli/Evolution.v read the floats *)
 Definition num_Q : pynum :=
-  mk_pynum Q inject_Z (fun q => q) Qmult Qdiv Qabs
+  mk_pynum Q inject_Z (fun q => q) Qplus Qmult Qdiv Qabs
            (fun a b => if Qlt_le_dec b a then true else false)
-           (fun a => Qeq_bool a 0).
+           (fun a => Qeq_bool a 0) Qeq_bool.
 
 (* ------------------------------------------------------------------ gates and circuits *)
 (* closed angle expressions: np.pi, an integer literal, -a, a / b, a * b *)
@@ -124,6 +140,10 @@ Definition circ_add {P} (a b : circ P) : circ P := a ++ b.
 (* circuit + gate operation (also +=): appended *)
 Definition circ_add_op {P} (a : circ P) (o : pyop P) : circ P := a ++ [o].
 
+(* circuit.operations, Circuit(operations) (the width bookkeeping n_qubits is not modelled) *)
+Definition circ_operations {P} (c : circ P) : list (pyop P) := c.
+Definition circ_of_operations {P} (l : list (pyop P)) : circ P := l.
+
 (* gate.dagger:  MatrixFactoryGate: self if is_hermitian else Dagger(self);  Dagger: the wrapped gate *)
 Definition gate_dagger {P} (g : pygate P) : pygate P :=
   match g with
@@ -149,6 +169,9 @@ Definition term_is_constant {T} (t : pterm T) : bool := match t_ops t with [] =>
 (* term[q]: self._ops.get(q, "I") (with a warning when absent) *)
 Definition term_getitem {T} (t : pterm T) (q : nat) : string :=
   match lookup q (t_ops t) with Some a => letter_str a | None => "I"%string end.
+(* x == term.coefficient for a number x: the coefficient is the complex number re + i im (a float coefficient has im = 0) *)
+Definition py_num_eq_complex (N : pynum) (x : num N) (t : pterm (num N)) : bool :=
+  n_eqb N x (t_re t) && n_is_zero N (t_im t).
 (* hamiltonian.terms: the list of terms of a PauliSum ([self] for a PauliTerm) *)
 Definition ham_terms {T} (h : list (pterm T)) : list (pterm T) := h.
 
